@@ -30,6 +30,24 @@ CLAIMS = {
             'state. Terms are symbolic in every input, so the verdict covers all children, inputs and steps.',
             'Trusted: rustc front end, sfa/vg.py (value-graph construction), the spec table in sfa/e_c14.py. `>=` vs `>` in clips is not policed.',
             'DESIGN.md §5 C14', 'E2/VG'),
+    'C18': ('proof', 'static analysis: Houdini-inferred inductive length invariants over the value graph + linear-integer entailment (N symbolic)',
+            'Proof of bounded memory: for each of the 34 growable buffers (including those of inlined inner views) the largest '
+            'inductive subset of a candidate family of length invariants (true after every constructor, preserved by every exit '
+            'of update()) contains an upper bound that mentions constructor parameters/constants only; per-call scratch '
+            'allocations are parameter-bounded. N is symbolic, the invariant is inductive: the bound holds for every window '
+            'length and every stream length; chains are covered compositionally.',
+            'Trusted: rustc front end, sfa/vg.py, sfa/solve.py (DBM / Fourier–Motzkin entailment), the Vec/VecDeque length algebra, '
+            'the buffer type list (Vec, VecDeque, ...; other container types are rejected by C17 T1). Capacity (as opposed to length) is not modelled.',
+            'DESIGN.md §5 C18', 'E3'),
+    'C15': ('other', 'static analysis: panic-edge census from MIR + obligations discharged from inferred class invariants by linear-integer entailment',
+            'Every MIR Assert terminator (usize overflow, bounds check) and every call to a panicking std API (unwrap/expect/index/'
+            'remove/clamp) in view code is mapped to an obligation and discharged from the inferred inductive class invariant, '
+            'the path condition and loop ranges, with N symbolic (all window lengths the constructor accepts, all histories, all '
+            'interleavings of update/last since last() cannot change state). An unmapped panic edge or an unproved obligation is a violation. '
+            'Not a full proof of the property: internal finiteness assertions are decided only as far as the guard census goes.',
+            'Trusted: as C18, plus: counter + 1 cannot overflow; buffer elements are finite (comparator expect); the predicate-counter rule for BinaryEntropy.p. '
+            'Level other: the finiteness-assertion clause is only partially decided.',
+            'DESIGN.md §5 C15', 'E3'),
 }
 
 NOT_APPLICABLE = {
@@ -74,6 +92,7 @@ def main():
             {'name': 'driver', 'path': 'driver/', 'serves_properties': sorted(CLAIMS), 'kind_free_text': 'rustc_private fact extractor: items, structured IR from type-checked HIR, MIR census of panic edges and calls'},
             {'name': 'E1', 'path': 'sfa/e1_types.py', 'serves_properties': ['C17', 'C14', 'C18'], 'kind_free_text': 'type/item allow-list walk, globals, unsafe, callee closure'},
             {'name': 'E2', 'path': 'sfa/e2_protocol.py', 'serves_properties': ['C01', 'C08'], 'kind_free_text': 'path counting / def-use protocol rules over structured IR'},
+            {'name': 'E3', 'path': 'sfa/e3_bounds.py', 'serves_properties': ['C15', 'C18', 'C02', 'C08'], 'kind_free_text': 'Houdini class invariants + panic/memory obligations; entailment in sfa/solve.py'},
             {'name': 'VG', 'path': 'sfa/vg.py', 'serves_properties': ['C14', 'C02', 'C03', 'C04', 'C05', 'C10', 'C12', 'C13'], 'kind_free_text': 'gated-SSA value graph (terms, phi, fold) with event log; rule engines match and type the terms'},
         ],
         'checks': checks,
